@@ -190,9 +190,13 @@ func (sp *ServiceProvider) Metadata() *EntityDescriptor {
 
 	var keyDescriptors []KeyDescriptor
 	if sp.Certificate != nil {
-		certBytes := sp.Certificate.Raw
+		// one X509Certificate element per certificate, ours first: the concatenation of
+		// several DER certificates in a single element cannot be parsed by consumers.
+		certificates := []X509Certificate{
+			{Data: base64.StdEncoding.EncodeToString(sp.Certificate.Raw)},
+		}
 		for _, intermediate := range sp.Intermediates {
-			certBytes = append(certBytes, intermediate.Raw...)
+			certificates = append(certificates, X509Certificate{Data: base64.StdEncoding.EncodeToString(intermediate.Raw)})
 		}
 		// Assertions can only be encrypted to (and decrypted with) an RSA key,
 		// so only advertise an encryption key when we have one.
@@ -202,9 +206,7 @@ func (sp *ServiceProvider) Metadata() *EntityDescriptor {
 					Use: "encryption",
 					KeyInfo: KeyInfo{
 						X509Data: X509Data{
-							X509Certificates: []X509Certificate{
-								{Data: base64.StdEncoding.EncodeToString(certBytes)},
-							},
+							X509Certificates: certificates,
 						},
 					},
 					EncryptionMethods: []EncryptionMethod{
@@ -221,9 +223,7 @@ func (sp *ServiceProvider) Metadata() *EntityDescriptor {
 				Use: "signing",
 				KeyInfo: KeyInfo{
 					X509Data: X509Data{
-						X509Certificates: []X509Certificate{
-							{Data: base64.StdEncoding.EncodeToString(certBytes)},
-						},
+						X509Certificates: certificates,
 					},
 				},
 			})
